@@ -61,7 +61,7 @@ func (c05) Budget(tier string) runner.Budget {
 	if tier == "thorough" {
 		return runner.Budget{Plans: 6000, PlansPerProc: 6, Wall: 14 * time.Minute}
 	}
-	return runner.Budget{Plans: 400, PlansPerProc: 5, Wall: 45 * time.Second}
+	return runner.Budget{Plans: 400, PlansPerProc: 5, Wall: 45 * time.Second, MinPlans: 300}
 }
 
 func (c05) Describe() runner.Description {
@@ -103,6 +103,21 @@ func (c05) Gen(seed uint64, tier string) json.RawMessage {
 		comp := c05Block{Parent: d - 1, QN: qsum[d] + uint64(r.Intn(2)), PV: int64(r.Range(2, 7)), Castor: r.Intn(2)}
 		if r.Chance(0.4) {
 			comp.Skip = uint64(r.Range(1, 3)) // lands on a height the old branch used differently (or not at all)
+		}
+		if r.Chance(0.35) {
+			// weight contest decided at the fork point: exactly equal TotalQN, prove values of the whole
+			// neighbourhood drawn from one small range, the competitor possibly landing on a height the
+			// old branch filled with a later block (fork choice must compare with the FIRST block after
+			// the common ancestor, not with the block that happens to sit at the competitor's height)
+			comp.QN = qsum[d]
+			comp.Skip = 0
+			if L-1-d > 0 && r.Chance(0.7) {
+				comp.Skip = uint64(r.Range(1, L-1-d))
+			}
+			for i := d; i < L; i++ {
+				p.Blocks[i].PV = int64(r.Range(1, 5))
+			}
+			comp.PV = int64(r.Range(1, 5))
 		}
 		if r.Chance(0.3) && len(p.Blocks[d].Txs) > 0 {
 			comp.ReTx = d + 1 // carries the same transactions as the block it replaces
